@@ -1450,7 +1450,7 @@ def targets (env : Env) (st : Store) (op : Op) (ch : Choice) : List Name :=
   | .create r => [resolveName env st ch.ord1 r.name]
   | .copy _ d => [resolveName env st ch.ord2 d]
   | .delete n => [resolveName env st ch.ord1 n]
-  | .pull n _ _ => [resolveName env st ch.ord1 n]
+  | .pull n _ _ => [pullTarget env (resolveName env st ch.ord1 n)]
   | .plant _ d => [d]
   | .corrupt n => [n]
   | .dashify n => [n]
@@ -1674,7 +1674,7 @@ theorem step_man_frame (env : Env) (st : Store) (op : Op) (ch : Choice) (n : Nam
   | pull t reg served =>
     simp only [step]
     simp only [targets, List.mem_singleton] at hn
-    rcases pullAt_mans env st (resolveName env st ch.ord1 t) reg served with h | ⟨m, _, h⟩
+    rcases pullAt_mans env st (pullTarget env (resolveName env st ch.ord1 t)) reg served with h | ⟨m, _, h⟩
     · exact man_congr h n
     · unfold Store.man; rw [h, aget_aset]; simp [hn]
 
